@@ -117,7 +117,8 @@ theorem proc_create (S : Schema) (fx : Fixes) (U : DNode → Prop) (ho : OrdHyp 
   have hh : b.height ≤ f + 1 := by
     unfold cnode at hf
     rwa [setMetas_height, dupRec_height b.height b (Nat.le_refl _)] at hf
-  have happ := apply_created S fx ho.asym (f + 1) b [("operation", Op.create.bytes)] data hpB inh hwb hh
+  have happ := apply_created S fx U ho.kids ho.asym (f + 1) b [("operation", Op.create.bytes)] data hpB inh hwb
+    (ctx.inU b (by simp [hb])) hh
     (effOp_of_own _ _ inh (ownOp_cons _ .create [] (setMetas_metas _ _)))
   refine ⟨_, happ, ?_⟩
   apply Inv.insert S U ho pre as bs done data (createdNode b) b hinv ctx.inU hb (createdNode_kkey S b)
@@ -389,7 +390,15 @@ theorem level_final (S : Schema) (fx : Fixes) (U : DNode → Prop) (ho : OrdHyp 
     rcases hkeyOut d hd with ⟨a, ha, he⟩ | ⟨b, hb, he⟩
     · exact hpwa.2.2 y hy a ha (by rw [← hkd, he])
     · exact hpwb.2.2 y hy b hb (by rw [← hkd, he])
-  apply canon_ext S ho.asym r (pre ++ bs) hinv.canon ctx.cb hinv.shape hspb
+  apply canon_ext S _ ho.asym r (pre ++ bs) hinv.canon ctx.cb
+    (fun x hx => ⟨hinv.shape x hx, by
+      obtain ⟨y, hy, hk⟩ := hinv.keysIn x hx
+      exact ⟨y, ctx.inU y hy, hk.symm⟩⟩)
+    (fun y hy => ⟨hspb y hy, ⟨y, ctx.inU y (by
+      simp only [List.mem_append] at hy ⊢
+      rcases hy with h | h
+      · exact Or.inl (Or.inl h)
+      · exact Or.inr h), rfl⟩⟩)
   · intro x hx
     by_cases hk : kkey S x ∈ doneF
     · obtain ⟨y, hy, hky, hny⟩ := hinv.new x hx hk
